@@ -480,7 +480,7 @@ theorem supply_history (cap : Id → Nat) (a : Id) (l : List (Tx × Id × Nat)) 
 /-! ### non-vacuity -/
 
 def capEx : Id → Nat := fun _ => 1000
-def P0 : Params := ⟨capEx, 1, 10⟩
+def P0 : Params := { cap := capEx, xin := 1, claimFee := 10 }
 def dep : Tx := ⟨10, 2, [.deposit 1 2 102 300], [⟨.script, 300, [501]⟩], [], true, true⟩
 def wd : Tx := ⟨11, 2, [.utxo 10 0], [⟨.withdrawalSubmit, 100, []⟩, ⟨.script, 200, [502]⟩], [], true, true⟩
 
